@@ -1,3 +1,6 @@
+\* 1 hash slot, identities {1,2} (2 optionally foreign), 3 connections of one user (master a, slave a,
+\* slave b), owner sequences 0..1, activity seconds 0..1, 2 pending tokens per incarnation:
+\* 93,012 distinct states, 7.9M generated, ~30 s with 8 workers
 SPECIFICATION Spec
 CONSTANTS
   Slots = {1}
